@@ -279,6 +279,11 @@ func NewFloatFromString(typ *types.FloatType, s string) (*Float, error) {
 		if err != nil {
 			return nil, errors.WithStack(err)
 		}
+		// Round once, to the nearest double: rounding to 53 bits first and to a
+		// subnormal (or to infinity) afterwards would round twice.
+		if f, err := strconv.ParseFloat(strings.TrimPrefix(s, "+"), 64); err == nil || errors.Is(err, strconv.ErrRange) {
+			x = big.NewFloat(f)
+		}
 		c := &Float{
 			Typ: typ,
 			X:   x,
